@@ -251,6 +251,8 @@ pub struct Gen<'a> {
     cally: bool,
     long_blocks: bool,
     split_calls: bool,
+    /// rarely seen but legal extractor output (see the items marked `exotic`)
+    exotic: bool,
 }
 
 impl<'a> Gen<'a> {
@@ -492,7 +494,26 @@ impl<'a> Gen<'a> {
                             let fl = if p.flags.is_empty() { self.u(1) } else { reg(p.flags[0], 1) };
                             b.def(Some(fl), expr("FLOAT_NAN", &[reg(f, fs)]))
                         }
+                        _ if self.exotic => match self.r.below(4) {
+                            0 => b.def(Some(reg(f, fs)), expr(*self.r.pick(&["FLOAT_CEIL", "FLOAT_FLOOR", "FLOAT_ROUND", "CEIL", "FLOOR", "ROUND"]), &[reg(f, fs)])),
+                            1 => {
+                                let fl = if p.flags.is_empty() { self.u(1) } else { reg(*self.r.pick(p.flags), 1) };
+                                b.def(Some(fl), expr(*self.r.pick(&["FLOAT_EQUAL", "FLOAT_NOTEQUAL", "FLOAT_LESS", "FLOAT_LESSEQUAL"]), &[reg(f, fs), reg(f, fs)]))
+                            }
+                            2 => b.def(Some(reg(f, fs)), expr(*self.r.pick(&["FLOAT_SUB", "FLOAT_MULT", "FLOAT_DIV"]), &[reg(f, fs), reg(f, fs)])),
+                            _ => {
+                                let t = self.u(if fs == 8 { 4 } else { 8 });
+                                b.def(Some(t), expr("FLOAT2FLOAT", &[reg(f, fs)]))
+                            }
+                        },
                         _ => b.def(Some(reg(f, fs)), expr(*self.r.pick(&["FLOAT_NEG", "FLOAT_ABS", "FLOAT_SQRT"]), &[reg(f, fs)])),
+                    }
+                } else if self.exotic && fs >= 16 {
+                    // wide vector registers: zero extension into and truncation out of them
+                    if self.r.chance(50) {
+                        b.def(Some(reg(f, fs)), expr("INT_ZEXT", &[reg(r1, p.ptr)]));
+                    } else {
+                        b.def(Some(reg(r1, p.ptr)), expr("SUBPIECE", &[reg(f, fs), cst(*self.r.pick(&[0u64, 4, 8]), 4)]));
                     }
                 } else {
                     b.def(Some(reg(f, fs)), expr("COPY", &[reg(f, fs)]));
@@ -935,7 +956,10 @@ impl<'a> Gen<'a> {
                 (3, Some(_)) => {
                     // mostly a jump inside the function; sometimes into a block of another function
                     // (shared tails: the analyzer duplicates such blocks per function)
-                    let t = if self.r.chance(20) {
+                    let t = if self.exotic && self.r.chance(10) {
+                        // exotic: jump to an address for which no block was emitted (createLabel names any address)
+                        faddr + 0xf00 + 4 * self.r.below(8)
+                    } else if self.r.chance(20) {
                         let f = self.func_addrs[self.r.below(self.func_addrs.len() as u64) as usize];
                         f + 0x40 * self.r.below(3)
                     } else {
@@ -965,6 +989,26 @@ impl<'a> Gen<'a> {
                     b.jmps.push(json!({"tid": jt, "term": {"mnemonic": "BRANCHIND", "goto": {"Indirect": reg(r1, p.ptr)}, "target_hints": hints}}));
                     out.push(b);
                 }
+                (6, Some(_)) if self.exotic && self.r.chance(50) => {
+                    // exotic: user-defined op in the middle of an instruction: the rest of the instruction
+                    // continues in the return block `blk_<addr>_r` (JumpProcessing.handleCallReturnPair)
+                    b.next_insn();
+                    let a = b.cur;
+                    let jt = b.jmp_tid();
+                    let rid = format!("blk_{}_r", hex(a));
+                    b.jmps.push(json!({"tid": jt, "term": {"mnemonic": "CALLOTHER", "call": {"return": {"Direct": tid(rid.clone(), &hex(a))}, "call_string": "cpuid"}}}));
+                    let idx = b.idx;
+                    out.push(b);
+                    let mut rb = Blk::new(a, Some("r"));
+                    rb.tid_id = rid;
+                    rb.idx = idx;
+                    rb.def(Some(reg(p.ret, p.ptr)), expr("COPY", &[cst(0x756e6547, p.ptr)]));
+                    if let Some(f) = fall {
+                        let jt = rb.jmp_tid();
+                        rb.jmps.push(json!({"tid": jt, "term": {"mnemonic": "BRANCH", "goto": {"Direct": tid(format!("blk_{}", hex(f)), &hex(f))}}}));
+                    }
+                    out.push(rb);
+                }
                 (6, Some(f)) => {
                     // CALLOTHER (e.g. syscall / cpuid) returning to the next block
                     let name = *self.r.pick(&["syscall", "cpuid", "swi", "LOCK", "trap"]);
@@ -978,8 +1022,9 @@ impl<'a> Gen<'a> {
                     self.end_with_call(b, t, f, &mut out);
                 }
                 (8, Some(f)) | (11 | 12, Some(f)) => {
-                    // call of another (or the same) function
-                    let t = self.func_addrs[self.r.below(self.func_addrs.len() as u64) as usize];
+                    // call of another (or the same) function; exotic: a call into an address where the
+                    // disassembler found no function (TermCreator.handleLabelsForCalls names it anyway)
+                    let t = if self.exotic && self.r.chance(10) { self.text + 0x800 + 0x10 * self.r.below(4) } else { self.func_addrs[self.r.below(self.func_addrs.len() as u64) as usize] };
                     if !p.stack_args && self.r.chance(60) {
                         let a = ArgV::StackBuf(-0x30);
                         let v = self.arg_value(&mut b, &a);
@@ -1201,8 +1246,8 @@ pub fn generate(seed: u64) -> Workload {
         cally: r.chance(50),
         long_blocks: r.chance(30),
         split_calls: r.chance(40),
+        exotic: r.chance(30),
     };
-    let _ = g.text;
     // distribute gadgets over functions
     let ngad = *r.pick(&[0u64, 2, 4, 6, 8, 10]);
     let mut per_func: Vec<Vec<&str>> = vec![Vec::new(); nfuncs];
@@ -1216,6 +1261,23 @@ pub fn generate(seed: u64) -> Workload {
         g.meta.blocks += nb;
         g.meta.defs += nd;
         subs.push(s);
+    }
+    if g.exotic {
+        // exotic: a function without any block (e.g. a body the disassembler could not recover)
+        if r.chance(30) {
+            let a = text + 0x900;
+            subs.push(json!({"tid": tid(format!("sub_{}", hex(a)), &hex(a)), "term": {"name": format!("FUN_{}", hex(a)), "blocks": [], "calling_convention": p.cconv}}));
+        }
+        // exotic: overlapping function bodies: the same block is listed in two functions
+        if r.chance(40) && subs.len() >= 2 {
+            let from = r.below(subs.len() as u64) as usize;
+            let to = r.below(subs.len() as u64) as usize;
+            let nb = subs[from]["term"]["blocks"].as_array().map_or(0, |b| b.len());
+            if from != to && nb > 1 && !subs[to]["term"]["blocks"].as_array().unwrap().is_empty() {
+                let blk = subs[from]["term"]["blocks"][1 + r.below(nb as u64 - 1) as usize].clone();
+                subs[to]["term"]["blocks"].as_array_mut().unwrap().push(blk);
+            }
+        }
     }
     // extern symbols
     let mut ext_json = Vec::new();
